@@ -312,9 +312,11 @@ pub struct RefusalCase {
     pub h1: bool,
     pub h2: bool,
     pub quic: bool,
-    /// 0 ok, 1 duplicate inside main, 2 duplicate across classes, 3 missing cert file,
+    /// 0 ok, 1 duplicate host name (classes given by `dup`), 3 missing cert file,
     /// 4 key file that is not a key, 5 no main host
     pub hosts_defect: u8,
+    /// the two host classes (0 main, 1 ping, 2 speedtest, 3 reverse proxy) sharing a name
+    pub dup: (u8, u8),
     /// 0 none, 1 valid, 2 port 0, 3 empty mask, 4 mask without slash
     pub reverse_proxy: u8,
 }
@@ -334,7 +336,7 @@ fn expect_refusal(c: &RefusalCase) -> Option<&'static str> {
     }
     match c.hosts_defect {
         0 => None,
-        1 | 2 => Some("duplicate TLS host"),
+        1 => Some("duplicate TLS host"),
         3 | 4 => Some("unloadable TLS host"),
         _ => Some("no main host"),
     }
@@ -346,17 +348,18 @@ impl Suite for RefusalSuite {
         "startup-refusals"
     }
     fn rule(&self) -> String {
-        "cross product of {credentials present / absent} x {loopback / non-loopback / wildcard listen address, IPv4 and IPv6} x every subset of listen protocols x TLS hosts {valid, duplicate inside a class, duplicate across classes, missing certificate file, key file that is not a key, no main host} x reverse proxy {absent, valid, port 0, empty mask, mask without slash}, loaded from TOML exactly as the endpoint does and handed to Core::new; the start must be refused iff the reference predicate says so (the statement's list); non-trivial = exactly one refusal reason present".into()
+        "cross product of {credentials present / absent} x {loopback / non-loopback / wildcard listen address, IPv4 and IPv6} x every subset of listen protocols x TLS hosts {valid, a host name duplicated inside or across any pair of the four host classes, missing certificate file, key file that is not a key, no main host} x reverse proxy {absent, valid, port 0, empty mask, mask without slash}, loaded from TOML exactly as the endpoint does and handed to Core::new; the start must be refused iff the reference predicate says so (the statement's list); non-trivial = exactly one refusal reason present".into()
     }
     fn strategy(&self, _: Tier) -> BoxedStrategy<RefusalCase> {
         (
             any::<bool>(),
             prop::sample::select(vec!["127.0.0.1:8443", "0.0.0.0:443", "192.0.2.2:443", "[::1]:8443", "[::]:443", "127.8.8.8:1", "[2001:db8::1]:443"]),
             any::<[bool; 3]>(),
-            prop_oneof![5 => Just(0u8), 1 => Just(1u8), 1 => Just(2u8), 1 => Just(3u8), 1 => Just(4u8), 1 => Just(5u8)],
+            prop_oneof![5 => Just(0u8), 4 => Just(1u8), 1 => Just(3u8), 1 => Just(4u8), 1 => Just(5u8)],
             prop_oneof![4 => Just(0u8), 2 => Just(1u8), 1 => Just(2u8), 1 => Just(3u8), 1 => Just(4u8)],
+            (0u8..4, 0u8..4),
         )
-            .prop_map(|(credentials, listen, p, hosts_defect, reverse_proxy)| RefusalCase {
+            .prop_map(|(credentials, listen, p, hosts_defect, reverse_proxy, dup)| RefusalCase {
                 credentials,
                 listen: listen.to_string(),
                 h1: p[0],
@@ -364,6 +367,7 @@ impl Suite for RefusalSuite {
                 quic: p[2],
                 hosts_defect,
                 reverse_proxy,
+                dup,
             })
             .boxed()
     }
@@ -423,10 +427,19 @@ impl Suite for RefusalSuite {
             format!("[[{}]]\nhostname = \"{}\"\ncert_chain_path = \"{}\"\nprivate_key_path = \"{}\"\n\n", table, name, cert, key)
         };
         let good = cert_path(0);
+        const TABLES: [&str; 4] = ["main_hosts", "ping_hosts", "speedtest_hosts", "reverse_proxy_hosts"];
+        let all_classes = host("main_hosts", "a.x", &good, &good)
+            + &host("ping_hosts", "ping.x", &good, &good)
+            + &host("speedtest_hosts", "speed.x", &good, &good)
+            + &host("reverse_proxy_hosts", "rp.x", &good, &good);
         let hdoc = match c.hosts_defect {
-            0 => host("main_hosts", "a.x", &good, &good) + &host("ping_hosts", "ping.x", &good, &good),
-            1 => host("main_hosts", "a.x", &good, &good) + &host("main_hosts", "a.x", &good, &good),
-            2 => host("main_hosts", "a.x", &good, &good) + &host("speedtest_hosts", "a.x", &good, &good),
+            0 => all_classes,
+            1 => {
+                // one more entry in each of the two classes, both called dup.x
+                all_classes
+                    + &host(TABLES[c.dup.0 as usize % 4], "dup.x", &good, &good)
+                    + &host(TABLES[c.dup.1 as usize % 4], "dup.x", &good, &good)
+            }
             3 => host("main_hosts", "a.x", "/nonexistent/cert.pem", &good),
             4 => host("main_hosts", "a.x", &good, &garbage.path()),
             _ => "main_hosts = []\n".to_string() + &host("ping_hosts", "ping.x", &good, &good),
